@@ -99,6 +99,7 @@ type Frame struct {
 }
 
 type Exec struct {
+	curInst []types.Type // type arguments of the generic callee whose contract is being applied
 	assignLHS string
 	specDefs  map[string]*specDef
 	sliceOrig map[string]*sliceOrigin
@@ -623,6 +624,17 @@ func (e *Exec) stmt(s ast.Stmt, st *State, fr *Frame) Flow {
 		// (started from an arbitrary later state) against the contract's `spawn modifies` clause
 		if !e.inSpawn {
 			e.spawns = append(e.spawns, spawned{x.Call, fr, st.clone(), e.prog.pos(x)})
+			tf := fr
+			for tf != nil && !tf.top && tf.parent != nil {
+				tf = tf.parent
+			}
+			if tf != nil && tf.top && tf.contract != nil {
+				for _, rq := range tf.contract.SpawnReq {
+					sc := &Ctx{st: st, fr: tf, spec: true, old: tf.entry}
+					phi := e.evalCond(rq.Expr, sc)
+					e.assert(st, fmt.Sprintf("%s#spawn%d.requires[%s]", e.fnName, len(e.spawns), rq.Label), "assertion", phi, rq.Text, e.prog.pos(x), e.modelVars(st, tf))
+				}
+			}
 		}
 		return Flow{norm: st}
 	case *ast.SendStmt:
